@@ -28,6 +28,18 @@ impl_calc!("Dual2<Dual>", Dual2<Dual64, f64>, f64, 53, ord, nobes);
 impl_calc!("Dual3<Dual>", Dual3<Dual64, f64>, f64, 53, noord, nobes);
 impl_calc!("HyperDual<Dual>", HyperDual<Dual64, f64>, f64, 53, noord, nobes);
 
+/// the transcendental closure of the vector-class driver cases (the same expression is given to Python as text)
+fn g1<D: DualNum<f64> + Clone>(x: &[D]) -> D {
+    let n = x.len();
+    x[0].sin() * x[1 % n].exp() + (x[0].clone() * x[0].clone() + 1.5).ln() / (x[n - 1].clone() + 3.0) - x[0].tanh().powi(2)
+}
+fn g2<D: DualNum<f64> + Clone>(x: &[D]) -> D {
+    let n = x.len();
+    (x[n - 1].clone() * x[0].clone()).cos() - x[1 % n].sqrt() * 0.5 + x[0].atan()
+}
+const G1_PY: &str = "v[0].sin() * v[1 % len(v)].exp() + (v[0] * v[0] + 1.5).log() / (v[len(v) - 1] + 3.0) - v[0].tanh() ** 2";
+const G2_PY: &str = "(v[len(v) - 1] * v[0]).cos() - v[1 % len(v)].sqrt() * 0.5 + v[0].arctan()";
+
 #[pymodule(name = "nd_embedded")]
 fn nd_module(m: &Bound<'_, PyModule>) -> PyResult<()> {
     ::num_dual::python::num_dual(m.py(), m)
@@ -274,6 +286,44 @@ fn main() {
                     }
                 }
             }
+        }
+        // ---- drivers with a transcendental closure: the named functions of the fixed-size and dynamic vector classes
+        //      (DualN, Dual2Vec, dynamic variants are only reachable from Python through the drivers)
+        if drivers_file.is_some() {
+            use nalgebra::DVector;
+            for n in [1usize, 2, 3, 5, 10, 11, 12] {
+                let xs: Vec<f64> = (0..n).map(|i| 0.4 + 0.27 * i as f64 + 0.1 * rng.unit()).collect();
+                let xlist = format!("[{}]", xs.iter().map(|v| pyf(*v)).collect::<Vec<_>>().join(", "));
+                let xv = DVector::from_vec(xs.clone());
+                let bits = |a: &[f64], b: &[f64]| a.len() == b.len() && a.iter().zip(b).all(|(x, y)| x.to_bits() == y.to_bits());
+                // gradient
+                let (f, g) = gradient(|v: DVector<DualDVec64>| g1(v.as_slice()), xv.clone());
+                let want: Vec<f64> = std::iter::once(f).chain(g.iter().copied()).collect();
+                py.run(&CString::new(format!("__f, __g = nd.gradient(lambda v: {G1_PY}, {xlist})\n__o = [__f] + list(__g)\n")).unwrap(), Some(&locals), None)?;
+                let got: Vec<f64> = locals.get_item("__o")?.unwrap().extract()?;
+                rep.check(format!("driver-fn|gradient|n{n}"), bits(&got, &want), || json!({"python": got, "rust": want}));
+                // hessian
+                let (f, g, h) = hessian(|v: DVector<Dual2DVec64>| g1(v.as_slice()), xv.clone());
+                let want: Vec<f64> = std::iter::once(f).chain(g.iter().copied()).chain((0..n).flat_map(|i| (0..n).map(move |j| (i, j))).map(|(i, j)| h[(i, j)])).collect();
+                py.run(&CString::new(format!("__f, __g, __h = nd.hessian(lambda v: {G1_PY}, {xlist})\n__o = [__f] + list(__g) + [e for row in __h for e in row]\n")).unwrap(), Some(&locals), None)?;
+                let got: Vec<f64> = locals.get_item("__o")?.unwrap().extract()?;
+                rep.check(format!("driver-fn|hessian|n{n}"), bits(&got, &want), || json!({"python": got, "rust": want}));
+                // jacobian (fixed-size classes only: at most 10 variables)
+                if n <= 10 {
+                    let (f, j) = jacobian(|v: DVector<DualDVec64>| DVector::from_vec(vec![g1(v.as_slice()), g2(v.as_slice())]), xv.clone());
+                    let want: Vec<f64> = f.iter().copied().chain((0..2).flat_map(|i| (0..n).map(move |k| (i, k))).map(|(i, k)| j[(i, k)])).collect();
+                    py.run(&CString::new(format!("__f, __j = nd.jacobian(lambda v: [{G1_PY}, {G2_PY}], {xlist})\n__o = list(__f) + [e for row in __j for e in row]\n")).unwrap(), Some(&locals), None)?;
+                    let got: Vec<f64> = locals.get_item("__o")?.unwrap().extract()?;
+                    rep.check(format!("driver-fn|jacobian|n{n}"), bits(&got, &want), || json!({"python": got, "rust": want}));
+                }
+            }
+            // scalar drivers
+            let x0 = 0.7 + 0.1 * rng.unit();
+            let (f, d1, d2, d3) = third_derivative(|v| g1(&[v]), x0);
+            py.run(&CString::new(format!("__o = list(nd.third_derivative(lambda w: (lambda v: {G1_PY})([w]), {}))\n", pyf(x0))).unwrap(), Some(&locals), None)?;
+            let got: Vec<f64> = locals.get_item("__o")?.unwrap().extract()?;
+            let want = vec![f, d1, d2, d3];
+            rep.check("driver-fn|third_derivative".into(), got.len() == 4 && got.iter().zip(&want).all(|(a, b)| a.to_bits() == b.to_bits()), || json!({"python": got, "rust": want}));
         }
         let _ = PyList::empty(py);
         Ok(())
